@@ -1006,6 +1006,17 @@ class Machine:
                     return None
             else:
                 self.notes.append(("assert", t["msg"], fr.fn))
+                # an overflow check of a subtraction that no dominating comparison makes redundant (a - b with a >= b not known)
+                e = c.e if isinstance(c, Int) else None
+                if e is not None and e.op == "not":
+                    e = e.args[0]
+                if e is not None and e.op == "ovf" and str(e.args[0]).startswith("Sub"):
+                    a_, b_ = e.args[1], e.args[2]
+                    facts_ = [("uge", a_, b_, 1), ("ult", a_, b_, 0), ("ugt", a_, b_, 1), ("ule", a_, b_, 0), ("ule", b_, a_, 1), ("ugt", b_, a_, 0),
+                              ("ult", b_, a_, 1), ("uge", b_, a_, 0), ("sge", a_, b_, 1), ("slt", a_, b_, 0), ("sgt", a_, b_, 1), ("sle", b_, a_, 1)]
+                    guarded = any(d[0].op == op_ and d[0].args == (x_, y_) and d[1] == val_ for d in st.decisions for op_, x_, y_, val_ in facts_)
+                    if not guarded:
+                        self.notes.append(("unguarded-sub", fmt(binop("sub", a_, b_, a_.w), 4), fr.fn, t.get("span")))
             fr.block = t["target"]
             return None
         if k == "drop":
